@@ -483,3 +483,312 @@ def check_ntt_module_roundtrip(smt2, params, spec_):
             return {"status": "FAIL", "stats": stats, "replay_inputs": rep, "detail": "result not provably the centered representative: [%d,%d]" % (r.lo, r.hi)}
     stats["identity"] = "congruent to the input modulo all four primes and centered in (-Q/2,Q/2]: equals the input since |input| < 2^63 < Q/2"
     return {"status": "PASS", "stats": stats}
+
+
+# ------------------------------------------------------------------------------------------------- per-level interval induction (all n <= 65536)
+def check_ntt_levels(smt2, params, spec_):
+    """h_ntt_levels: level l of the real transform applied to a block of fresh symbolic vectors.  Inputs of level l are bounded by the
+    interval derived for the outputs of level l-1 (level 0: any 64-bit value), twiddle halves by the maxima of the real table.  Per level:
+    every add/sub/shift stays inside its word (interval obligations), and each output is congruent modulo its prime to the butterfly
+    formula once the table relation t1 = t*2^half_bs (mod q) is substituted - a 32x32 multiply that dropped operand bits leaves a residual."""
+    n, direction, qs, meta = params["n"], params["dir"], params["primes"], params["meta"]
+    tmax, t1max, inbits = params["tmax"], params["t1max"], params["inbits"]
+    nlev = len(meta)
+    t0 = time.time()
+    vc = vcalg.VC(smt2)
+    dom = vcalg.IntDom()
+    ev = vcalg.Evaluator(vc, dom)
+    atoms = {}
+    for base in ("VF_LX", "VF_LT", "VF_LT1"):
+        fin = vc.final_versions(base)
+        for i in sorted(fin):
+            pz = ev.ev(fin[i])
+            if not (isinstance(pz, vcalg.IPoly) and len(pz.t) == 1 and list(pz.t.values()) == [1] and len(list(pz.t)[0]) == 1):
+                return {"status": "INCONCLUSIVE", "detail": "harness input %s[%d] is not a free symbol" % (base, i)}
+            atoms[(base, i)] = list(pz.t)[0][0]
+    fout = vc.final_versions("VF_LOUT")
+    H = [(1 << inbits) - 1] * 4
+    levels = []
+    total_ok = 0
+    for l in range(nlev):
+        first = (l == 0) if direction == 0 else (l == nlev - 1)
+        if first:
+            blk = 4
+        else:
+            nn_real = (n >> (l - 1)) if direction == 0 else (2 << l)
+            blk = 4 if nn_real >= 4 else 2
+        for i in range(16):
+            k = i % 4
+            dom.ranges[atoms[("VF_LX", 16 * l + i)]] = (0, H[k])
+            dom.ranges[atoms[("VF_LT", 16 * l + i)]] = (0, tmax[k])
+            dom.ranges[atoms[("VF_LT1", 16 * l + i)]] = (0, t1max[k])
+        dom.obl_ok, dom.open = 0, []
+        ev = vcalg.Evaluator(vc, dom)
+        outs = {}
+        for i in range(4 * blk):
+            if 16 * l + i not in fout:
+                return {"status": "INCONCLUSIVE", "detail": "output lane %d of level %d missing" % (i, l)}
+            outs[i] = ev.ev(fout[16 * l + i])
+        worst_in = [str(H[i % 4]) if True else "0" for i in range(16)]
+        if dom.open:
+            # replay values: the interval extremes of this level (a = 0, b = max for a borrowing lazy subtraction, all max otherwise)
+            rep = []
+            borrow = any("sub" in d for d in dom.open[:3])
+            for ll in range(nlev):
+                for i in range(16):
+                    v = i // 4
+                    xin = H[i % 4] if ll == l else 0
+                    if ll == l and borrow and not first and v < blk // 2:
+                        xin = 0
+                    rep += [str(xin), str(tmax[i % 4]), "0"]
+            return {"status": "FAIL", "replay_inputs": rep, "stats": {"level": l, "input_bound_bits": [h.bit_length() for h in H]},
+                    "detail": "level %d (metadata bs=%d half_bs=%d reduce=%d) on inputs < %s: %s" % (l, meta[l]["bs"], meta[l]["half_bs"], meta[l]["reduce"],
+                                                                                                  [hex(h) for h in H], "; ".join(dom.open[:3]))}
+        total_ok += dom.obl_ok
+        # congruence of every output with the butterfly formula modulo its prime
+        hb = meta[l]["half_bs"]
+        for i in range(4 * blk):
+            k, v = i % 4, i // 4
+            q = qs[k]
+            o = outs[i].t
+            X = lambda j: atoms[("VF_LX", 16 * l + 4 * j + k)]
+            if first:
+                tt = atoms[("VF_LT", 16 * l + i)]
+                t1 = atoms[("VF_LT1", 16 * l + i)]
+                o = subst(o, t1, {(tt,): (1 << hb) % q})
+                expect = {tuple(sorted((X(v), tt))): 1}
+            else:
+                half = blk // 2
+                j = v % half
+                a, b = X(j), X(j + half)
+                if j:
+                    tt = atoms[("VF_LT", 16 * l + 4 * (j - 1) + k)]
+                    t1 = atoms[("VF_LT1", 16 * l + 4 * (j - 1) + k)]
+                    o = subst(o, t1, {(tt,): (1 << hb) % q})
+                    ta, tb = tuple(sorted((a, tt))), tuple(sorted((b, tt)))
+                if direction == 0:
+                    expect = {(a,): 1, (b,): 1} if v < half else ({(a,): 1, (b,): -1} if not j else {ta: 1, tb: -1})
+                else:
+                    if not j:
+                        expect = {(a,): 1, (b,): 1} if v < half else {(a,): 1, (b,): -1}
+                    else:
+                        expect = {(a,): 1, tb: 1} if v < half else {(a,): 1, tb: -1}
+            d = poly_mod(vcalg.ip_add(o, expect, -1), q)
+            if d:
+                rep = []
+                for ll in range(nlev):
+                    for i2 in range(16):
+                        rep += [str(H[i2 % 4] if ll == l else 0), str(tmax[i2 % 4]), "0"]
+                return {"status": "FAIL", "replay_inputs": rep, "stats": {"level": l},
+                        "detail": "level %d output lane %d is not congruent to its butterfly formula modulo %d: residual %s" %
+                                  (l, i, q, [([dom.names[x] for x in m], c) for m, c in list(d.items())[:3]])}
+        Hn = [max(outs[i].hi for i in range(4 * blk) if i % 4 == k) for k in range(4)]
+        levels.append({"level": l, "reduce": meta[l]["reduce"], "bs_claimed_by_builder": meta[l]["bs"], "derived_output_bits": [h.bit_length() for h in Hn],
+                       "within_builder_claim": all(h < (1 << meta[l]["bs"]) for h in Hn)})
+        H = Hn
+    stats = {"n": n, "dir": direction, "levels": levels, "vc_definitions": len(vc.defs), "bv_operations_interpreted": dom.nops,
+             "nowrap_obligations_discharged_by_intervals": total_ok, "eval_s": round(time.time() - t0, 2)}
+    return {"status": "PASS", "stats": stats}
+
+
+# ------------------------------------------------------------------------------------------------- products: every ell <= MAX_ELL by loop summarisation
+_SSA = None
+
+
+def _ssa_split(name):
+    """'|base#v<suffix>|' -> (base+suffix, v) for an SSA symbol of an automatic object, else None"""
+    global _SSA
+    import re
+    if _SSA is None:
+        _SSA = re.compile(r"^\|([^|#]*!\d+@\d+)#(\d+)([^|]*)\|$")
+    m = _SSA.match(name)
+    if not m or m.group(1).startswith("goto_symex::"):
+        return None
+    return m.group(1) + m.group(3), int(m.group(2))
+
+
+def check_product_accel(smt2, params, spec_):
+    """All lengths 0 < ell <= ell_max from one symbolic execution at a small length L (h_prod, all operand values symbolic).
+
+    The kernels are `acc = 0; for i < ell: acc_j += d_j(x_i, y_i); res = E(acc)`.  From the exported VC of the real code at ell = L:
+      (1) the loop-carried accumulators are found as the automatic objects whose successive SSA versions differ by polynomials d_{j,1..L}
+          over pairwise disjoint operand atoms (one iteration each), all with the same interval [lo_j, hi_j], lo_j >= 0, and the same shape;
+      (2) every operation inside an iteration keeps its word (interval obligations of the integer interpreter over all operand values);
+      (3) the epilogue E is re-evaluated with the accumulators' final versions replaced by fresh symbols A_j in [0, ell_max*hi_j]
+          (ell_max*hi_j < 2^64: no accumulate step wraps): no epilogue add/mul wraps, and modulo each prime E is a linear form sum w_j*A_j
+          with no residual floor term - a 32x32 multiply that dropped operand bits would leave one;
+      (4) per iteration, sum_j w_j*d_{j,i} is congruent to x_i*y_i modulo the prime (polynomial identity, c-layout contract substituted).
+    (1)-(4) give res == sum_i x_i*y_i (mod q) for every ell <= ell_max, provided iterations beyond L execute the same loop body (one loop,
+    no iteration-dependent branch) - the shape check over L iterations is the evidence for that."""
+    form, L, qs, ell_max = params["form"], params["ell"], params["primes"], params["ell_max"]
+    y32 = form >= 2
+    nx = (4 if form <= 2 else 8) * L
+    ny = {0: 4, 1: 4, 2: 8, 3: 16, 4: 32}[form] * L
+    M32, M64 = (1 << 32) - 1, (1 << 64) - 1
+    ranges = {}
+    for i in range(nx):
+        ranges[("VF_X", i)] = (0, M32 if form == 0 else M64)
+    for i in range(ny):
+        ranges[("VF_Y", i)] = (0, M32 if (form == 0 or y32) else M64)
+    t0 = time.time()
+    vc, dom, ins, outs = eval_int(smt2, ["VF_X", "VF_Y"], "VF_OUT", ranges)
+    stats = {"form": form, "unrolled_iterations": L, "ell_max": ell_max, "vc_definitions": len(vc.defs)}
+    allmax = [str(M64)]  # replayed natively at ell = ell_max with the pattern repeated (operands are masked to their layout by the harness)
+    RD = {"ELL": ell_max, "VF_CYCLIC_INPUTS": None}
+    if dom.open:
+        return {"status": "FAIL", "stats": stats, "detail": "an operation inside an iteration may exceed its word: " + "; ".join(dom.open[:3]), "replay_inputs": allmax, "replay_defs": RD}
+    stats["in_loop_obligations_discharged"] = dom.obl_ok
+    in_atoms = set(ins.values())
+    iter_of = {}
+    xs = 4 if form <= 2 else 8
+    ys = {0: 4, 1: 4, 2: 8, 3: 16, 4: 32}[form]
+    for (base, i), a in ins.items():
+        iter_of[a] = i // (xs if base == "VF_X" else ys)
+    # provenance of floor atoms: the iteration of the operand atoms they were derived from
+    def atom_iters(a, seen=None):
+        if a in iter_of:
+            return {iter_of[a]}
+        d = dom.defs.get(a)
+        out = set()
+        if d:
+            for m in d[1]:
+                for b in m:
+                    out |= atom_iters(b)
+        return out
+    ev = vcalg.Evaluator(vc, dom)
+    # (1) candidate accumulators: automatic objects that start at 0 and grow in >= 2 steps, each step adding whole iterations' terms
+    groups = {}
+    for name in vc.defs:
+        sp = _ssa_split(name)
+        if sp:
+            groups.setdefault(sp[0], []).append((sp[1], name))
+    accs = []
+    why = {}
+    for base, vers in groups.items():
+        if len(vers) < 3:
+            continue
+        vers.sort()
+        vals = []
+        ok = True
+        for v, nme in vers:
+            try:
+                pv = ev.ev(nme)
+            except vcalg.Unsupported:
+                ok = False
+                break
+            if not isinstance(pv, vcalg.IPoly):
+                ok = False
+                break
+            vals.append((nme, pv))
+        if not ok:
+            continue
+        if vals[0][1].t or vals[0][1].lo != 0 or vals[0][1].hi != 0:
+            continue  # does not start at zero
+        # maximal prefix of versions that grow by whole single-iteration terms; a later version (the variable reused by the epilogue) ends it
+        pieces = {}
+        bad = None
+        step_sets = []
+        final_idx = 0
+        for idx, ((n0, p0), (n1, p1)) in enumerate(zip(vals, vals[1:])):
+            dlt = {m: c for m, c in vcalg.ip_add(p1.t, p0.t, -1).items() if c}
+            if not dlt:
+                if not bad:
+                    final_idx = idx + 1
+                continue
+            sset = set()
+            loc = {}
+            for m, c in dlt.items():
+                its = set()
+                for a in m:
+                    its |= atom_iters(a)
+                if len(its) != 1:
+                    bad = "a monomial of a step mixes %d iterations" % len(its)
+                    break
+                it = list(its)[0]
+                sset.add(it)
+                loc.setdefault(it, {})
+                loc[it][m] = loc[it].get(m, 0) + c
+            if bad:
+                break
+            for it, pm in loc.items():
+                pieces.setdefault(it, {})
+                for m, c in pm.items():
+                    pieces[it][m] = pieces[it].get(m, 0) + c
+            step_sets.append(sset)
+            final_idx = idx + 1
+        if len(step_sets) < 2:
+            continue
+        vals = vals[:final_idx + 1]
+        bad = None
+        if bad or sorted(set().union(*step_sets)) != list(range(L)):
+            why[base] = bad or "steps do not cover the iterations"
+            continue  # a loop counter, a pointer, a temporary
+        shapes = [sorted((c, len(m)) for m, c in pieces[it].items()) for it in range(L)]
+        if any(sh != shapes[0] for sh in shapes):
+            return {"status": "INCONCLUSIVE", "stats": stats, "detail": "accumulator %s: per-iteration terms differ in shape across the %d unrolled iterations" % (base, L)}
+        last = vals[-1][1]  # the value after L iterations is a sum of L terms of identical shape over independent operands with identical ranges:
+        if last.lo < 0:     # its rigorous upper bound is at least L times the largest value of one term
+            return {"status": "FAIL", "stats": stats, "replay_inputs": allmax, "replay_defs": RD, "detail": "accumulator %s may decrease (interval after %d iterations [%d,%d])" % (base, L, last.lo, last.hi)}
+        per_term_hi = -(-last.hi // L)
+        accs.append({"base": base, "final": vals[-1][0], "pieces": pieces, "lo": 0, "hi": per_term_hi})
+    if not accs:
+        return {"status": "INCONCLUSIVE", "stats": stats, "detail": "no loop-carried accumulator recognised in the exported VC; rejected candidates: %s" % (sorted(why.items())[:6],)}
+    stats["accumulators"] = len(accs)
+    stats["increment_bits"] = sorted({a["hi"].bit_length() for a in accs})
+    # (3) epilogue on fresh accumulator symbols
+    for a in accs:
+        if ell_max * a["hi"] > M64:
+            return {"status": "FAIL", "stats": stats, "replay_inputs": allmax, "replay_defs": RD,
+                    "detail": "accumulator %s: %d increments of up to %d bits exceed 64 bits" % (a["base"], ell_max, a["hi"].bit_length())}
+    ev2 = vcalg.Evaluator(vc, dom)
+    dom.obl_ok, dom.open = 0, []
+    for a in accs:
+        a["atom"] = dom.new_atom("ACC:" + a["base"], 0, ell_max * a["hi"])
+        ev2.memo_sym[a["final"]] = vcalg.IPoly({(a["atom"],): 1}, 0, ell_max * a["hi"], 64)
+    fin = vc.final_versions("VF_OUT")
+    try:
+        outs2 = {i: ev2.ev(fin[i]) for i in sorted(fin)}
+    except vcalg.Unsupported as ex:
+        return {"status": "FAIL", "stats": stats, "replay_inputs": allmax, "replay_defs": RD,
+                "detail": "epilogue on accumulators of up to ell_max=%d terms leaves the interpretable fragment (an operand no longer fits its lane?): %s" % (ell_max, ex)}
+    if dom.open:
+        return {"status": "FAIL", "stats": stats, "replay_inputs": allmax, "replay_defs": RD,
+                "detail": "epilogue on accumulators of up to %d terms: %s" % (ell_max, "; ".join(dom.open[:3]))}
+    stats["epilogue_obligations_discharged"] = dom.obl_ok
+    acc_atoms = {a["atom"]: a for a in accs}
+    spec = product_spec(form, L, ins)
+    checked = 0
+    for r, o in sorted(outs2.items()):
+        k, terms = spec[r]
+        q = qs[k]
+        lin = poly_mod(o.t, q)
+        w = {}
+        for m, c in lin.items():
+            if len(m) == 1 and m[0] in acc_atoms:
+                w[m[0]] = c
+            else:
+                return {"status": "FAIL", "stats": stats, "replay_inputs": allmax, "replay_defs": RD,
+                        "detail": "output lane %d modulo %d is not a linear form of the accumulators at ell_max=%d: residual %s (an epilogue operand lost bits or an "
+                                  "operand atom is still visible)" % (r, q, ell_max, [dom.names[x] for x in m])}
+        # (4) per-iteration congruence
+        for it in range(L):
+            d = {}
+            for aa, c in w.items():
+                for m, cc in acc_atoms[aa]["pieces"][it].items():
+                    d[m] = d.get(m, 0) + c * cc
+            xa, ya = terms[it]
+            mm = tuple(sorted((xa, ya)))
+            d[mm] = d.get(mm, 0) - 1
+            if y32:
+                for i in range(0, ny, 2):
+                    if ((i // 2) % 4) == k:
+                        d = subst(d, ins[("VF_Y", i + 1)], {(ins[("VF_Y", i)],): (1 << 32) % q})
+            rem = poly_mod(d, q)
+            if rem:
+                return {"status": "FAIL", "stats": stats, "replay_inputs": allmax, "replay_defs": RD,
+                        "detail": "iteration %d: weighted increments of output lane %d are not congruent to x*y modulo %d (%d residual monomials)" % (it, r, q, len(rem))}
+        checked += 1
+    stats["lanes_congruent_for_every_ell"] = checked
+    stats["max_output_bits_at_ell_max"] = max(o.hi.bit_length() for o in outs2.values())
+    stats["analysis_s"] = round(time.time() - t0, 2)
+    return {"status": "PASS", "stats": stats}
